@@ -245,6 +245,13 @@ def run(ctx):
     for i in range(ctx.budget(60, 3000)):
         c = _case(rng)
         N = c["N"]
+        if i % 5 == 3:
+            # the first step after the moments were zeroed: delR lags delP by one step and is still EXACTLY zero
+            c["delR"] = np.zeros_like(c["delR"])
+            ctx.count("hop_shift:delR_exactly_zero")
+        elif i % 5 == 4:
+            c["delP"] = np.zeros_like(c["delP"])
+            ctx.count("hop_shift:delP_exactly_zero")
         for tgt in range(N):
             src = (tgt + 1) % N
             t = _afssh(c, "exp")
@@ -252,8 +259,10 @@ def run(ctx):
             t.delP = np.array(c["delP"])
             t.hop_update(src, tgt)
             x = int(rng.integers(0, c["n"]))
-            lines.append(["hopupdate", N, tgt] + cbs(np.diag(c["delR"][x])))
-            keep.append((c, tgt, src, x, np.diag(t.delR[x]).copy()))
+            # the model shifts one diagonal: that of delR or of delP, alternately
+            which = "delR" if (i + tgt) % 2 == 0 else "delP"
+            lines.append(["hopupdate", N, tgt] + cbs(np.diag(c[which][x])))
+            keep.append((dict(c, _which=which), tgt, src, x, np.diag(getattr(t, which)[x]).copy()))
     outs = ctx.model.run(lines)
     for (c, tgt, src, x, got), o in zip(keep, outs):
         N = c["N"]
@@ -263,7 +272,8 @@ def run(ctx):
         ctx.case(("hopupdate", N, tgt) if (N >= 3 or tgt != N - 1) else None,
                  {"op": "hopupdate", "N": N, "target": tgt, "impl_diag": got, "model_spec": spec, "model_pinned": pinned})
         ctx.count("hop_shift:target<last" if tgt < N - 1 else "hop_shift:target=last")
-        sc = float(np.max(np.abs(np.diag(c["delR"][x])))) + 1e-300
+        sc = float(np.max(np.abs(np.diag(c[c["_which"]][x])))) + 1e-300
+        c = {k_: v_ for k_, v_ in c.items() if k_ != "_which"}
         same = lambda a, b: allclose(np.concatenate([a.real, a.imag]), np.concatenate([b.real, b.imag]), sc)
         if same(got, spec):
             ctx.count("hop_shift_matches_spec")
